@@ -33,7 +33,7 @@ ASSUMPTIONS = ["initial >= 1 and resize > 1 (documented preconditions of ArrayBu
                "LayoutBuilder: initial >= 16 bytes; only int64/float64/bool/complex128 leaves (the only typed commands pybind exposes)"]
 PLAN = {
     "quick": [{"flavour": "plain", "cases": 3200}, {"flavour": "san", "cases": 800}],
-    "thorough": [{"flavour": "plain", "cases": 96000}, {"flavour": "san", "cases": 24000}],
+    "thorough": [{"flavour": "plain", "cases": 40000}, {"flavour": "san", "cases": 12000}],
 }
 WALL_CAP = {"quick": 900, "thorough": 2700}
 FORK_EACH = True
